@@ -63,12 +63,16 @@ def extract_inputs(trace, fn=None):
         if s.get("stepType") != "assignment":
             continue
         lhs = s.get("lhs", "")
-        m = re.match(r"^(vp_(?:in|arg)_\w+)(.*)$", lhs)
+        # vp_in_x / vp_arg_x scalars (or arrays), and whole-struct snapshots named
+        # exactly vp_in / vp_arg (members come out as "vp_in.field[i].sub"); vp_n0 is the
+        # historic name of the count snapshot of nni_aio_iov_advance
+        m = re.match(r"^(vp_(?:in|arg)(?:_\w+)?|vp_n0)(?![\w$!@#])(.*)$", lhs)
         if not m:
             continue
         base, rest = m.group(1), m.group(2)
         for suf, x in _val(s.get("value", {})).items():
-            key = base + rest + suf
+            # member-wise assignments carry typed index literals ("a[0l].x"): same slot as "a[0].x"
+            key = re.sub(r"\[(\d+)[a-zA-Z]+\]", r"[\1]", base + rest + suf)
             kv[key] = x      # last write wins (the declaration writes a default first)
     return kv
 
